@@ -247,6 +247,8 @@ def fit(est, X, y, spec, warm=False):
         y = np.asarray(y).astype(spec["yint"])
     X = forms.present(X, spec.get("xform", "C"))
     y = forms.present(y, spec.get("yform", "C"))
+    if spec.get("global_seed") is not None and not warm:
+        np.random.seed(int(spec["global_seed"]))  # the caller seeds NumPy's global generator and leaves random_state=None
     if spec.get("npscalars") and warm:
         warm = np.bool_(True)  # a flag that comes out of a NumPy comparison
     try:
